@@ -69,5 +69,5 @@ def run(ctx):
         "a CHAR token without scanner error has both quotes (len >= 2); marker CHAR-LIT-SHORT-WITHOUT-SCAN-ERROR on every case otherwise",
         "strconv.Unquote / strconv.UnquoteChar do not panic; their real results are passed to the model per literal",
     ]
-    common.standard(ctx, "GopModel.Props.C27", "c27", 3000, 60000, RULE,
+    common.standard(ctx, "GopModel.Props.C27", "c27", 3000, 300000, RULE,
                     extract=("tpltoken",), driver="drv_tplfront", post=_post)
